@@ -509,6 +509,8 @@ func main() {
 		histChild(a)
 	case "demo-export-on-joiner":
 		demoExportOnJoiner()
+	case "demo-quiesced-nonvoting":
+		demoQuiescedNonVoting()
 	case "run":
 		run(a)
 	default:
